@@ -300,8 +300,8 @@ MUTANTS += [
       edits=[(MS, '\t\t\t\t\tfinalizeFile(state, false, ErrCRC32Mismatch.Error())\n\t\t\t\t\tdataErrCh <- ErrCRC32Mismatch\n\t\t\t\t\treturn', '\t\t\t\t\tfinalizeFile(state, false, ErrCRC32Mismatch.Error())\n\t\t\t\t\treturn')]),
  dict(id='C02-ack-before-ok', props=['C02'], expect='R-SUCCESS-GATE/sender/ack-counted-only-ok/',
       edits=[(MS, '\t\t\tif !fileDone.OK {\n\t\t\t\tif fileDone.ErrMsg == "" {', '\t\t\tif !fileDone.OK && fileDone.ErrMsg != "" {\n\t\t\t\tif fileDone.ErrMsg == "" {')]),
- dict(id='C02-select-without-ctx', props=['C02', 'C03'], expect='R-ESCAPE/select/transfer.RecvManifestMultiStream$handleFileBegin',
-      edits=[(MS, '\t\t\tselect {\n\t\t\tcase controlWriteCh <- controlMsg{resume: info}:\n\t\t\tcase <-recvCtx.Done():\n\t\t\t\treturn recvCtx.Err()\n\t\t\t}\n\t\t}\n\t\treturn nil\n\t}\n\n\thandleResumeRequest', '\t\t\tselect {\n\t\t\tcase controlWriteCh <- controlMsg{resume: info}:\n\t\t\t}\n\t\t}\n\t\treturn nil\n\t}\n\n\thandleResumeRequest')]),
+ dict(id='C02-select-without-ctx', props=['C02', 'C03'], expect='R-ESCAPE/select/transfer.RecvManifestMultiStream$queueControl',
+      edits=[(MS, '\t\tselect {\n\t\tcase controlWriteCh <- msg:\n\t\t\treturn nil\n\t\tcase <-recvCtx.Done():\n\t\t\treturn recvCtx.Err()\n\t\tcase <-controlEnded:\n\t\t\treturn nil\n\t\t}\n', '\t\tselect {\n\t\tcase controlWriteCh <- msg:\n\t\t\treturn nil\n\t\t}\n')]),
  dict(id='C02-wait-background-ctx', props=['C02'], expect='R-ESCAPE/ctx/transfer.SendManifestMultiStream$sendFileEnd',
       edits=[(MS, 'fileDone, err := doneRegistry.wait(transferCtx, state.key)', 'fileDone, err := doneRegistry.wait(context.Background(), state.key)')]),
  dict(id='C03-undo-F5', props=['C03'], expect='R-NO-STUCK-WAIT/visible/',
@@ -902,7 +902,8 @@ MUTANTS += [
       edits=[(CP, 'import (\n', 'import (\n\t"bufio"\n'),
              (CP, '\tdata, err := io.ReadAll(io.LimitReader(s, int64(n)))\n', '\tdata, err := io.ReadAll(bufio.NewReader(io.LimitReader(s, int64(n))))\n')]),
  # R-RESEND-REACHES
- dict(id='R5-resend-after-schedule-dropped', props=['C17'], expect='R-RESEND-REACHES/resend-reaches/',
+ # reclassified in round 11: since F53 a re-send is never pending once the schedule ran out, the dropped branch is dead code (see seeded/_retired/README.md)
+ dict(id='R5-resend-after-schedule-dropped', props=['C17', 'C03'], expect='SILENT',
       edits=[(MS, _NEXT_OLD, '\tif s.scheduleDone {\n\t\treturn 0, 0, false\n\t}\n\tif s.resendPending {\n\t\tidx := s.resendChunk\n\t\ts.resendPending = false\n\t\ts.inFlight++\n\t\treturn idx, chunkSizeForIndex(s.item.Size, s.chunkSize, idx), true\n\t}\n')]),
  dict(id='R5-benign-resend-tested-first', props=['C17', 'C03', 'C06'], expect='SILENT',
       edits=[(MS, _NEXT_OLD, '\tif s.resendPending {\n\t\tidx := s.resendChunk\n\t\ts.resendPending = false\n\t\ts.inFlight++\n\t\treturn idx, chunkSizeForIndex(s.item.Size, s.chunkSize, idx), true\n\t}\n\tif s.scheduleDone {\n\t\treturn 0, 0, false\n\t}\n')]),
@@ -944,7 +945,7 @@ _F54_LEN = '\t\t\tif want := chunkSizeForIndex(int64(fileSize), chunkSize, chunk
 _F54_SEEN = '\t\t\t\tif seen.Get(int(chunkIndex)) {\n\t\t\t\t\tsendReadErr(fmt.Errorf("chunk %d received twice", chunkIndex))\n\t\t\t\t\treturn\n\t\t\t\t}\n'
 _F55_DEFER = '\t\tfor _, state := range states {\n\t\t\t_ = state.sidecar.Flush()\n\t\t\tglobalSidecarFlushRegistry.remove(state.sidecar)\n\t\t}\n\t}()\n\n\tvar statsMu sync.Mutex\n'
 _F57_BOUND = '\t\tif open >= dataStreams {\n\t\t\treturn fmt.Errorf("file begin for %s while %d files are open, as many as there are data streams", begin.RelPath, open)\n\t\t}\n'
-_F57_DEC = '\t\tstatsMu.Lock()\n\t\tif ok {\n\t\t\tcompletedCount++\n\t\t}\n\t\tif activeCount > 0 {\n\t\t\tactiveCount--\n\t\t}\n\t\tstatsMu.Unlock()\n\n\t\tselect {\n\t\tcase controlWriteCh <- controlMsg{done: &FileDone{'
+_F57_DEC = '\t\tstatsMu.Lock()\n\t\tif ok {\n\t\t\tcompletedCount++\n\t\t}\n\t\tif activeCount > 0 {\n\t\t\tactiveCount--\n\t\t}\n\t\tstatsMu.Unlock()\n\n\t\t_ = queueControl(controlMsg{done: &FileDone{'
 TQ = 'internal/transport/tuning_quic.go'
 WSF = 'internal/app/ws.go'
 MUTANTS += [
@@ -1579,4 +1580,10 @@ MUTANTS += [
              (SR, '\t\t\t\treader := bufio.NewReader(os.Stdin)\n\t\t\t\taccepted, err := promptAccept(reader)\n', '\t\t\t\tr.acceptAnswered.Store(true)\n\t\t\t\treader := bufio.NewReader(os.Stdin)\n\t\t\t\taccepted, err := promptAccept(reader)\n')]),
  dict(id='F80-benign-accept-sent-before-flag', props=['C16', 'C06', 'C07'], expect='SILENT',
       edits=[(SR, '\t\t\t\tr.acceptAnswered.Store(true)\n\t\t\t\tr.sendAcceptTo(sessionID, senderID, summary.ManifestID)\n', '\t\t\t\tr.sendAcceptTo(sessionID, senderID, summary.ManifestID)\n\t\t\t\tr.acceptAnswered.Store(true)\n')]),
+]
+
+# --- F81 (known finding): the rule is silent on a variant that looks at what the receiver sent ---
+MUTANTS += [
+ dict(id='F81-repaired-variant-looks-at-the-ack-readers-result', props=['C02'], expect='SILENT',
+      edits=[(MS, '\tif totalFiles == 0 {\n\t\tselect {\n\t\tcase <-ackDone:\n', '\tif totalFiles == 0 {\n\t\tselect {\n\t\tcase err := <-ackErrChan:\n\t\t\tif err != nil {\n\t\t\t\treturn err\n\t\t\t}\n')]),
 ]
